@@ -286,6 +286,11 @@ def _bv(x):
     if isinstance(x, bool):
         x = int(x)
     if isinstance(x, int):
+        if not -(1 << (W - 1)) <= x < (1 << (W - 1)):
+            # only a problem if this point is reachable: obligation under the current guard (unsat = dead code)
+            if CTX is None:
+                raise Inconclusive(f'integer constant {x:#x} outside the {W}-bit window')
+            oblige(False, f'int window: integer constant {x:#x} does not fit in {W} bits')
         return z3.BitVecVal(x, W)
     return x
 
@@ -414,7 +419,13 @@ class SymInt:
             return self._mk(f(self.e, o))
         return self._mk(f(_bv(self.e), _bv(o)))
 
-    def __and__(self, o): return self._bin(o, lambda a, b: a & b)
+    def __and__(self, o):
+        oo = self._operand(o)
+        if _is_conc(oo) and not _is_conc(self.e) and oo >= (1 << (W - 1)):
+            # non-negative mask wider than the window (e.g. sys.maxsize): exact for non-negative values
+            oblige(self.e >= 0, 'int window: wide mask applied to a negative value')
+            return self._mk(self.e & z3.BitVecVal(oo & ((1 << (W - 1)) - 1), W))
+        return self._bin(o, lambda a, b: a & b)
     __rand__ = __and__
     def __or__(self, o): return self._bin(o, lambda a, b: a | b)
     __ror__ = __or__
@@ -568,6 +579,48 @@ class SymInt:
 
     def __format__(self, spec):
         return format(self.concretize(), spec)
+
+    # The real bitset values are ints: any other int API used by the code under test works on the concretised value
+    # (forks over the feasible values; Inconclusive under a merge guard) -- correct, never silently skipped.
+    def __getattr__(self, name):
+        if name.startswith('__') or not hasattr(int, name):
+            raise AttributeError(name)
+        attr = getattr(int, name)
+        if callable(attr):
+            return lambda *a, **k: attr(self.concretize(), *a, **k)
+        return getattr(self.concretize(), name)
+
+    def _conc_bin(op):
+        def f(self, other):
+            o = other.concretize() if isinstance(other, SymInt) else int(bool(other)) if isinstance(other, SymBool) else other
+            if not isinstance(o, (int, float)):
+                return NotImplemented
+            return op(self.concretize(), o)
+
+        def r(self, other):
+            if not isinstance(other, (int, float)):
+                return NotImplemented
+            return op(other, self.concretize())
+        return f, r
+    import operator as _op
+    __mod__, __rmod__ = _conc_bin(_op.mod)
+    __floordiv__, __rfloordiv__ = _conc_bin(_op.floordiv)
+    __truediv__, __rtruediv__ = _conc_bin(_op.truediv)
+    __pow__, __rpow__ = _conc_bin(_op.pow)
+    __divmod__, __rdivmod__ = _conc_bin(divmod)
+    del _conc_bin, _op
+
+    def __abs__(self):
+        return abs(self.concretize())
+
+    def __float__(self):
+        return float(self.concretize())
+
+    def __round__(self, n=None):
+        return round(self.concretize(), n)
+
+    def __trunc__(self):
+        return self.concretize()
 
 
 class Unmergeable(Exception):
